@@ -175,6 +175,7 @@ def main():
         if qi % 7 == 0:
             ck.sample(dict(sql=sql, privacy_unit=pun, mode=mode, output_rows=len(A.rows)))
     results = smt.solve_all(queries, tq, workers=14, order=["z3new", "cvc5"], progress=200)
+    results = smt.replayable_models(queries, results, tq, workers=14, order=["z3new", "cvc5"])
     ck.count(results)
     n_w = disagreements = 0
     for r in results:
